@@ -1,8 +1,8 @@
 /-
 Driver for stream `vm` (C12): the accounting model executes the instruction stream of the real VM.
   case <k>                                   -> case <k>          (state reset)
-  load                                       -> NONE 0 0 1        (entry script loaded)
-  i <NAME> <args…> [|T <k> <c>] [!]          -> <NONE|HALT> <refs> <reach> <depth> | FAULT
+  load                                       -> NONE 0 0 1 0      (entry script loaded)
+  i <NAME> <args…> [|T <k> <c>] [!]          -> <NONE|HALT> <refs> <reach> <depth> <reachG> | FAULT
   e <obs…>                                   -> <obs…>            (echo: the case left the modelled set)
   chk <hex>                                  -> ok | bad          (Model/ScriptCheck.isScriptCorrect = scparser.IsScriptCorrect)
 `refs` is the model of the implementation's counter (as vm.go updates it), `reach` the number of
@@ -19,6 +19,7 @@ open NeoModel NeoModel.VmAcct
 
 structure DState where
   s : St := St.init
+  lk : List Item := []      -- ghost list: items of the evaluation stacks dropped by exception unwinding
   dead : Bool := false
 
 def natArg (ts : List String) (i : Nat) : Nat := ((ts[i]?).bind String.toNat?).getD 0
@@ -114,22 +115,27 @@ partial def fastWalk (h : Array Cell) (work : List Item) (marks : Array Bool) (e
       else if extra.contains id then fastWalk h w marks extra acc
       else fastWalk h w marks (id :: extra) acc
 
-def fastReach (s : St) : Nat :=
-  let h := s.c.heap.toArray
-  let roots := s.roots
+def fastReachFrom (heap : Heap) (roots : List Item) : Nat :=
+  let h := heap.toArray
   roots.length + fastWalk h roots (Array.replicate h.size false) [] 0
 
-def reachObs (s : St) : String :=
-  let n := s.c.heap.length + s.roots.length
-  if n ≤ 40 then toString s.reach
+/-- `reachFrom heap roots` as the theorems have it (small states), cross-checked, or the linear one -/
+def reachObsFrom (heap : Heap) (roots : List Item) : String :=
+  let n := heap.length + roots.length
+  if n ≤ 40 then toString (reachFrom heap roots)
   else if n ≤ 400 then
-    let a := s.reach
-    let b := fastReach s
+    let a := reachFrom heap roots
+    let b := fastReachFrom heap roots
     if a == b then toString a else s!"reach-impl-mismatch({a},{b})"
-  else toString (fastReach s)
+  else toString (fastReachFrom heap roots)
 
-def obs (s : St) : String :=
-  s!"{if s.halted then "HALT" else "NONE"} {s.c.refs} {reachObs s} {s.depth}"
+def reachObs (s : St) : String := reachObsFrom s.c.heap s.roots
+
+/-- `<state> <refs> <reach> <depth> <reachG>`: reachG = what a walk from the roots AND from the ghost
+list finds (theorem `refs_exact_unwind`: equals refs as long as no cycle was built) -/
+def obs (s : St) (lk : List Item) : String :=
+  let rg := if lk.isEmpty then reachObs s else reachObsFrom s.c.heap (s.roots ++ lk)
+  s!"{if s.halted then "HALT" else "NONE"} {s.c.refs} {reachObs s} {s.depth} {rg}"
 
 /-- splits `args… [|T k c] [!]` -/
 def splitTail (ts : List String) : List String × Option (Nat × Bool) × Bool :=
@@ -142,7 +148,7 @@ def splitTail (ts : List String) : List String × Option (Nat × Bool) × Bool :
 def stepD (d : DState) (ts : List String) : DState × String :=
   match ts with
   | "case" :: _ => ({}, " ".intercalate ts)
-  | ["load"] => (d, obs d.s)
+  | ["load"] => (d, obs d.s d.lk)
   | "e" :: rest => (d, " ".intercalate rest)
   | ["chk", h] =>
     match Hex.decode h with
@@ -156,7 +162,9 @@ def stepD (d : DState) (ts : List String) : DState × String :=
     | some op =>
       match step d.s op unw ext with
       | none => ({ d with dead := true }, "FAULT")
-      | some s' => ({ d with s := s' }, obs s')
+      | some s' =>
+        let lk' := if unw.isNone then d.lk else d.lk ++ droppedBy d.s op unw
+        ({ d with s := s', lk := lk' }, obs s' lk')
   | _ => (d, "bad-op")
 
 def main : IO Unit := Proto.run ({} : DState) stepD
